@@ -102,6 +102,39 @@ class _CanonIf(ast.NodeTransformer):
             node.test, node.body, node.orelse = node.test.operand, node.orelse, node.body
         return node
 
+    # A conditional expression that IS the value of a statement is analysed in statement form:
+    #     x = A if c else B      ->   if c: x = A   else: x = B          (also `return`, and `x op= ...` for a plain target and a call-free test:
+    #     the target's container / index are evaluated before the test in one form and after it in the other, which only a test with effects could observe)
+    def _split(self, st, simple_target=True):
+        v = st.value
+        if not isinstance(v, ast.IfExp) or not simple_target:
+            return st
+        import copy as _copy
+        a, b = _copy.copy(st), _copy.copy(st)
+        a.value, b.value = v.body, v.orelse
+        if isinstance(st, ast.Assign):
+            b.targets = [_copy.deepcopy(t) for t in st.targets]
+        elif isinstance(st, ast.AugAssign):
+            b.target = _copy.deepcopy(st.target)
+        new = ast.copy_location(ast.If(test=v.test, body=[a], orelse=[b]), st)
+        new.body = [self._split(a, simple_target)]
+        new.orelse = [self._split(b, simple_target)]
+        return new
+
+    def visit_Assign(self, st):
+        self.generic_visit(st)
+        return self._split(st)
+
+    def visit_Return(self, st):
+        self.generic_visit(st)
+        return self._split(st) if st.value is not None else st
+
+    def visit_AugAssign(self, st):
+        self.generic_visit(st)
+        pure = isinstance(st.value, ast.IfExp) and not any(isinstance(n, ast.Call) for n in ast.walk(st.value.test)) \
+            and not any(isinstance(n, ast.Call) for n in ast.walk(st.target))
+        return self._split(st, pure)
+
 
 def _canon_views(tree):
     """Row aliases are analysed in their direct form:  `row = A[i]` ... `row[k]`  is  `A[i, k]`  (basic indexing with an integer-like index
@@ -156,6 +189,24 @@ def _canon_views(tree):
                 if v in params or len(stores.get(v, [])) != 1:
                     continue
                 aliases[v] = st
+        # attribute aliases:  w = self.attr  (w bound once, self.attr never re-bound in this function): w and self.attr are the same object throughout,
+        # so every later use of w is analysed as self.attr (stores through w[k] are stores into self.attr[k])
+        attr_alias = {}
+        for st in ast.walk(fn):
+            if isinstance(st, ast.Assign) and len(st.targets) == 1 and isinstance(st.targets[0], ast.Name) and isinstance(st.value, ast.Attribute) \
+                    and isinstance(st.value.value, ast.Name) and st.value.value.id == "self":
+                v = st.targets[0].id
+                if v in params or len(stores.get(v, [])) != 1 or stores.get(ast.unparse(st.value)):
+                    continue
+                attr_alias[v] = st
+        if attr_alias:
+            class A(ast.NodeTransformer):
+                def visit_Name(self, n):
+                    if isinstance(n.ctx, ast.Load) and n.id in attr_alias and n.lineno > attr_alias[n.id].lineno:
+                        return ast.copy_location(copy.deepcopy(attr_alias[n.id].value), n)
+                    return n
+            A().visit(fn)
+            ast.fix_missing_locations(fn)
         if not aliases:
             continue
         # never inside loops whose body lies before the alias (stale view) - keep it simple: uses must come after the definition
